@@ -110,9 +110,16 @@ func decodeParamFilter(el *paramFilter) (*ParamFilter, error) {
 		pf.IsNotDefined = true
 	}
 	if el.TextMatch != nil {
-		pf.TextMatch = &TextMatch{Text: el.TextMatch.Text}
+		pf.TextMatch = decodeTextMatch(el.TextMatch)
 	}
 	return pf, nil
+}
+
+func decodeTextMatch(el *textMatch) *TextMatch {
+	return &TextMatch{
+		Text:            el.Text,
+		NegateCondition: bool(el.NegateCondition),
+	}
 }
 
 func decodePropFilter(el *propFilter) (*PropFilter, error) {
@@ -124,7 +131,7 @@ func decodePropFilter(el *propFilter) (*PropFilter, error) {
 		pf.IsNotDefined = true
 	}
 	if el.TextMatch != nil {
-		pf.TextMatch = &TextMatch{Text: el.TextMatch.Text}
+		pf.TextMatch = decodeTextMatch(el.TextMatch)
 	}
 	if el.TimeRange != nil {
 		pf.Start = time.Time(el.TimeRange.Start)
